@@ -63,6 +63,40 @@ type Step struct {
 	Topo string
 	// after a failed lock call: drain and record (evidence only) whether keys of the call are still locked
 	MidDrain bool
+	// Ctx is the context discipline of the API call(s) of this step that take a context
+	Ctx ctxKind
+}
+
+// ctxKind is what the caller does with the context it passes to one API call.
+type ctxKind int
+
+const (
+	// ctxBackground: context.Background().
+	ctxBackground ctxKind = iota
+	// ctxCancelAfter: context.WithCancel, cancelled immediately after the call returned.
+	ctxCancelAfter
+	// ctxDeadlineAfter: a context with values and a deadline far in the future, cancelled after the call returned.
+	ctxDeadlineAfter
+	// ctxCancelDuring: cancelled during the call, right after the store answered the call's n-th request (the
+	// answer still reaches the client: nothing is lost).  The call counts as failed and the transaction is
+	// then ended by Rollback.
+	ctxCancelDuring
+)
+
+func (c ctxKind) String() string {
+	return [...]string{"bg", "cancel-after", "deadline+values-cancel-after", "cancel-during"}[c]
+}
+
+func (g *gen) ctxKind(during bool) ctxKind {
+	switch x := g.rng.Intn(100); {
+	case x < 35:
+		return ctxBackground
+	case x < 70:
+		return ctxCancelAfter
+	case x < 92 || !during:
+		return ctxDeadlineAfter
+	}
+	return ctxCancelDuring
 }
 
 func (s Step) String() string {
@@ -102,6 +136,9 @@ func (s Step) String() string {
 	if s.Topo != "" {
 		fmt.Fprintf(&b, "@%s", s.Topo)
 	}
+	if s.Ctx != ctxBackground {
+		fmt.Fprintf(&b, "~%s", s.Ctx)
+	}
 	return b.String()
 }
 
@@ -113,6 +150,7 @@ type Program struct {
 	Splits []string        // region borders when the subject starts (every program runs in a fresh universe)
 	Steps  []Step
 	Commit bool // false: Rollback
+	EndCtx ctxKind
 	// obstacle in place while the subject's Commit runs (released inside its second prewrite attempt on that key)
 	EndOb       obKind
 	EndObKey    string
@@ -140,6 +178,9 @@ func (p *Program) String() string {
 			rel = "ci"
 		}
 		end += fmt.Sprintf("!%s(%s,%s)", p.EndOb, p.EndObKey, rel)
+	}
+	if p.Commit && p.EndCtx != ctxBackground {
+		end += "~" + p.EndCtx.String()
 	}
 	var ex []string
 	for k, v := range p.Exists {
@@ -295,6 +336,18 @@ func (g *gen) Next(seed int64, pess bool) *Program {
 	} else {
 		g.optimistic(p)
 	}
+	// context discipline of every call that takes a context (own stream of choices: appended last so that
+	// the programs themselves stay what they were)
+	for i := range p.Steps {
+		st := &p.Steps[i]
+		switch st.Kind {
+		case kAggRetry, kAggCancel, kAggDone:
+			st.Ctx = g.ctxKind(false)
+		case kLock, kInsert, kSet, kDel:
+			st.Ctx = g.ctxKind(pess && st.Ob != obDeadlock)
+		}
+	}
+	p.EndCtx = g.ctxKind(true)
 	return p
 }
 
